@@ -80,6 +80,7 @@ def initial_arm_region(b, field):
 def run(ctx):
     a6_reply_path_is_the_owners(ctx)
     a5_credentials_not_process_wide(ctx)
+    a1p_no_prefilled_key_tables(ctx)
     prog = ctx.prog
     bodies = [b for b in prog.prod_bodies() if "::_" not in b.defp]
     decs = [b for b in prog.methods_of_trait_impls("Decoder", "decode") if b.defp.startswith("octo_squirrel_server")]
@@ -441,3 +442,28 @@ def a6_reply_path_is_the_owners(ctx):
             parts = o.key.split("|")
             ctx.ob("A6", parts[1], parts[2], o.where, o.ok, o.detail)
     ctx.floor("A6", "association reply-path obligations (U3)", 2, n)
+
+
+def a1p_no_prefilled_key_tables(ctx):
+    """A1 (tables): a table of keys / credential hashes (`Vec<[u8; K]>`) holds nothing but derived credentials. A table created with constant
+    entries (`vec![[0; K]; n]`) and then filled slot by slot keeps the constant in every slot that is skipped (a malformed entry, an early
+    `continue`), and the all-zero key is a credential anybody can present."""
+    prog = ctx.prog
+    n = 0
+    for b in prog.prod_bodies():
+        if "::_" in b.defp:
+            continue
+        for (blk, c, t) in b.calls():
+            if not c.target.endswith("vec::from_elem"):
+                continue
+            ety = " ".join(a.get("s", "") for a in c.args[:1])
+            if not re.match(r"^\[u8; (16|28|32|N|\w+)\]$", ety.strip()):
+                continue
+            n += 1
+            k_ = t["args"][1] if len(t["args"]) > 1 else None
+            empty = k_ is not None and op_int(k_) == 0
+            ctx.ob("A1", b.defp, "key-table-has-no-prefilled-entries", loc(t["sp"]), empty,
+                   "empty table" if empty else
+                   f"a table of {ety.strip()} keys is created pre-filled with a constant entry per slot: a slot that is not overwritten (an entry that fails to parse and is "
+                   "skipped) stays a constant key, and a peer presenting that constant is authenticated as a registered user")
+    ctx.ob("A1", "workspace", "key-tables-inventoried", "-", True, f"{n} pre-sized key table(s)", nontrivial=False, ordinal=False)
